@@ -611,3 +611,159 @@ Definition run_stream (x : sexp) : option string :=
       end
   | _ => None
   end.
+
+(* ------------------------------------------------------------------ *)
+(* Script runner of family `streamsched`: schedules of the concurrent  *)
+(* model, executed on the real engine under the verif hook controller  *)
+(* (consumer held between s.mutex.Unlock() and the select; committer   *)
+(* held between `e.catalog = ...` and the broadcast).                  *)
+
+Local Open Scope string_scope.
+
+(* the consumer runs loop passes until it returns or parks *)
+Fixpoint run_checks (fuel : nat) (s : cstate) : cstate :=
+  match fuel with
+  | O => s
+  | S f =>
+      match c_cons s with
+      | CRunning _ => match cstep LCheck s with Some s' => run_checks f s' | None => s end
+      | _ => s
+      end
+  end.
+
+Definition show_cons (s : cstate) : string :=
+  match c_cons s with
+  | CParked => "PARKED"
+  | CDone o => show_result (c_st s) (Ok o)
+  | CRunning _ => "OUT-OF-FUEL"
+  | CIdle => "IDLE"
+  end.
+
+Record qworld : Type := mkQ {
+  q_pre : list event;            (* before the watch step: the oplog *)
+  q_count : Z;
+  q_c : option cstate            (* after the watch step *)
+}.
+
+Definition steps_opt (ls : list label) (s : cstate) : cstate :=
+  match crun ls s with Some s' => s' | None => s end.
+
+Definition add_writer (s : cstate) (w : wpc) : cstate :=
+  mkC (c_log s) (c_st s) (c_sig s) (c_chclosed s) (c_ctx s) (c_reg s) (c_alive s) (c_cons s)
+      (List.app (c_writers s) [w]) (c_closer s).
+
+Definition call_next (block : bool) (s : cstate) : cstate :=
+  let s1 := match c_cons s with CDone _ => steps_opt [LReturn] s | _ => s end in
+  match cstep (LCall block) s1 with
+  | Some s2 => run_checks (S (S (List.length (c_log s2)))) s2
+  | None => s1
+  end.
+
+Definition qlen (s : cstate) : string := "L" ++ show_Z (Z.of_nat (List.length (c_log s))).
+
+Definition run_qstep (w : qworld) (x : sexp) : option (qworld * string) :=
+  match q_c w, x with
+  | None, SList (SAtom "commit" :: _ :: evs) =>
+      match parse_events (q_count w) 0 evs with
+      | Some l =>
+          let pre := List.app (q_pre w) (map fst l) in
+          Some (mkQ pre (q_count w + Z.of_nat (List.length l)) None, "L" ++ show_Z (Z.of_nat (List.length pre)))
+      | None => None
+      end
+  | None, SList [SAtom "trim"; SAtom k] =>
+      match nat_of_atom k with
+      | Some k' => let pre := skipn k' (q_pre w) in
+                   Some (mkQ pre (q_count w) None, "L" ++ show_Z (Z.of_nat (List.length pre)))
+      | None => None
+      end
+  | None, SList [SAtom "watch"; sc] =>
+      match parse_scope sc with
+      | Some h =>
+          match watch h watch_now (q_pre w) with
+          | Some st => Some (mkQ (q_pre w) (q_count w) (Some (cinit (q_pre w) st [])), "W")
+          | None => None
+          end
+      | None => None
+      end
+  | Some s, SList (SAtom "commit" :: _ :: evs) =>
+      match parse_events (q_count w) 0 evs with
+      | Some [] => Some (w, qlen s)                       (* not dirty: no publish, no broadcast *)
+      | Some l =>
+          let i := List.length (c_writers s) in
+          let s' := steps_opt [LPublish i; LSignal i] (add_writer s (WPending (map fst l) 0)) in
+          Some (mkQ (q_pre w) (q_count w + Z.of_nat (List.length l)) (Some s'), qlen s')
+      | None => None
+      end
+  | Some s, SList (SAtom "publish" :: _ :: evs) =>
+      match parse_events (q_count w) 0 evs with
+      | Some [] => Some (w, "P")                          (* not dirty: Commit returns before the broadcast *)
+      | Some l =>
+          let i := List.length (c_writers s) in
+          let s' := steps_opt [LPublish i] (add_writer s (WPending (map fst l) 0)) in
+          Some (mkQ (q_pre w) (q_count w + Z.of_nat (List.length l)) (Some s'), "P")
+      | None => None
+      end
+  | Some s, SList [SAtom "signal"] =>
+      let s' := steps_opt [LSignal (pred (List.length (c_writers s)))] s in
+      Some (mkQ (q_pre w) (q_count w) (Some s'), qlen s')
+  | Some s, SList [SAtom "trim"; SAtom k] =>
+      match nat_of_atom k with
+      | Some k' =>
+          if Nat.eqb (Nat.min k' (List.length (c_log s))) 0 then Some (w, qlen s)   (* Clean removed nothing: not dirty *)
+          else
+            let i := List.length (c_writers s) in
+            let s' := steps_opt [LPublish i; LSignal i] (add_writer s (WPending [] k')) in
+            Some (mkQ (q_pre w) (q_count w) (Some s'), qlen s')
+      | None => None
+      end
+  | Some s, SList [SAtom "next"] =>
+      let s' := call_next true s in Some (mkQ (q_pre w) (q_count w) (Some s'), show_cons s')
+  | Some s, SList [SAtom "trynext"] =>
+      let s' := call_next false s in Some (mkQ (q_pre w) (q_count w) (Some s'), show_cons s')
+  | Some s, SList [SAtom "await"] =>
+      match c_cons s with
+      | CParked =>
+          let by_sig := c_sig s || c_chclosed s in
+          if by_sig && c_ctx s then Some (w, "RACE")       (* Go's select picks at random: not generated *)
+          else if by_sig then
+            let s' := run_checks (S (S (List.length (c_log s)))) (steps_opt [LWake] s) in
+            Some (mkQ (q_pre w) (q_count w) (Some s'), show_cons s')
+          else if c_ctx s then
+            let s' := steps_opt [LWakeCtx] s in
+            Some (mkQ (q_pre w) (q_count w) (Some s'), show_cons s')
+          else Some (w, "BLOCKED")
+      | _ => Some (w, "NOT-PARKED")
+      end
+  | Some s, SList [SAtom "close"] =>
+      let s1 := mkC (c_log s) (c_st s) (c_sig s) (c_chclosed s) (c_ctx s) (c_reg s) (c_alive s) (c_cons s)
+                    (c_writers s) KIdle in       (* a new goroutine calls Close *)
+      let s2 := steps_opt [LCloseMark] s1 in
+      let s3 := steps_opt [LCloseSend] s2 in
+      Some (mkQ (q_pre w) (q_count w) (Some s3), "-")
+  | Some s, SList [SAtom "cancel"] =>
+      Some (mkQ (q_pre w) (q_count w) (Some (steps_opt [LCancel] s)), "-")
+  | Some s, SList [SAtom "engineclose"] =>
+      Some (mkQ (q_pre w) (q_count w) (Some (steps_opt [LEngineClose] s)), "-")
+  | _, _ => None
+  end.
+
+Fixpoint run_qsteps (w : qworld) (l : list sexp) : option (list string) :=
+  match l with
+  | [] => Some []
+  | x :: t =>
+      match run_qstep w x with
+      | Some (w', s) => option_map (cons s) (run_qsteps w' t)
+      | None => None
+      end
+  end.
+
+(* (sched step ...) *)
+Definition run_sched (x : sexp) : option string :=
+  match x with
+  | SList (SAtom "sched" :: steps) =>
+      match run_qsteps (mkQ [] 0 None) steps with
+      | Some out => Some (join_sp out)
+      | None => Some "BAD-CASE"
+      end
+  | _ => None
+  end.
